@@ -118,6 +118,8 @@ pub struct Case {
     /// checkpoint = set_epoch + set_fast_forward, iter() again, train)
     #[serde(default)]
     pub history: Vec<Op>,
+    #[serde(default)]
+    pub two_loaders: bool,
 }
 
 /// operations on ONE loader object before its final `iter()` + full iteration
@@ -375,6 +377,28 @@ pub fn run_loader(
     } else {
         s.set_chaos_all(0, 0);
     }
+    let mut h = build_handle(c, files, v)?;
+    if let Some((strategy, sseed)) = &v.sched {
+        return run_controlled(h, v, strategy, *sseed);
+    }
+    h.iter()?;
+    let min_items = h.min_items();
+    let mut batches = vec![];
+    let mut guard = 0usize;
+    while let Some((items, _tensors)) = h.next()? {
+        batches.push(fingerprints(&items));
+        guard += 1;
+        if guard > 100_000 {
+            anyhow::bail!("loader produced more than 100000 batches");
+        }
+    }
+    s.set_chaos_all(0, 0);
+    Ok((batches, min_items))
+}
+
+/// a freshly built loader in the configuration of the variant, with its history applied, not yet
+/// iterated
+pub fn build_handle(c: &Case, files: &Files, v: &Variant) -> anyhow::Result<Handle> {
     let pipeline = TrainPipelineConfig {
         preprocessing: if c.pre_per_source.is_empty() {
             PreprocessingConfig::Global(pre_cfg(&c.pre, &files.dir))
@@ -431,33 +455,7 @@ pub fn run_loader(
             Op::SetFf(k) => h.set_fast_forward(*k),
         }
     }
-    if let Some((strategy, sseed)) = &v.sched {
-        return run_controlled(h, v, strategy, *sseed);
-    }
-    h.iter()?;
-    let min_items = h.min_items();
-    let mut batches = vec![];
-    let mut guard = 0usize;
-    while let Some((items, _tensors)) = h.next()? {
-        let fps: Vec<Fp> = items
-            .iter()
-            .map(|it| {
-                let input = it.data.verif_input();
-                let target = it.data.verif_target();
-                Fp {
-                    tag: parse_tag(target),
-                    hash: hash64(&(input, target, format!("{:?}", it.input))),
-                }
-            })
-            .collect();
-        batches.push(fps);
-        guard += 1;
-        if guard > 100_000 {
-            anyhow::bail!("loader produced more than 100000 batches");
-        }
-    }
-    s.set_chaos_all(0, 0);
-    Ok((batches, min_items))
+    Ok(h)
 }
 
 fn fingerprints(items: &[text_utils::data::TrainItem]) -> Vec<Fp> {
@@ -916,6 +914,7 @@ impl Prop for C08 {
             ff_k: vec![rng.random_range(0..=total + 2), rng.random_range(0..=total / 2 + 1)],
             fresh_process: rng.random_range(0..8) == 0,
             chaos_seed: rng.random(),
+            two_loaders: rng.random_bool(0.4),
             history: if rng.random_bool(0.6) {
                 (0..rng.random_range(1..=4))
                     .map(|_| match rng.random_range(0..8) {
@@ -1247,6 +1246,64 @@ fn check_inner(c: &Case, files: &Files, obs: &mut Obs) {
             }
         } else if !c.shuffle && !c.sort && k == 0 {
             obs.check(fr == f0, "fast-forward-zero", || "fast_forward(0) changes the stream".to_string());
+        }
+    }
+    // 7. two loaders alive at the same time (a training and a validation loader in one process),
+    // consumed alternately: each must yield exactly what it yields alone
+    if c.two_loaders {
+        let (t, b, ch) = c.variants[0];
+        let va = Variant { threads: t, buffer: b, chaos: ch, ..base.clone() };
+        let vb = Variant {
+            threads: if t > 1 { t - 1 } else { t + 1 },
+            buffer: b,
+            chaos: ch,
+            skip: c.split_k,
+            limit: None,
+            ..base.clone()
+        };
+        let vb_ref = Variant { threads: 0, buffer: 1, chaos: 0, ..vb.clone() };
+        let Some(bb_ref) = run(&vb_ref, obs) else { return };
+        let both = (|| -> anyhow::Result<(Vec<Vec<Fp>>, Vec<Vec<Fp>>)> {
+            let s = sched::sched();
+            s.ensure_installed();
+            s.set_chaos_all(c.chaos_seed ^ 0x77, ch);
+            let mut ha = build_handle(c, files, &va)?;
+            let mut hb = build_handle(c, files, &vb)?;
+            ha.iter()?;
+            hb.iter()?;
+            let (mut oa, mut ob) = (vec![], vec![]);
+            let (mut da, mut db) = (false, false);
+            while !(da && db) {
+                if !da {
+                    match ha.next()? {
+                        Some((items, _)) => oa.push(fingerprints(&items)),
+                        None => da = true,
+                    }
+                }
+                if !db {
+                    match hb.next()? {
+                        Some((items, _)) => ob.push(fingerprints(&items)),
+                        None => db = true,
+                    }
+                }
+                if oa.len() + ob.len() > 200_000 {
+                    anyhow::bail!("more than 200000 batches");
+                }
+            }
+            s.set_chaos_all(0, 0);
+            Ok((oa, ob))
+        })();
+        match both {
+            Ok((oa, ob)) => {
+                obs.check(oa == b0, "two-loaders/first-differs", || {
+                    format!("{}: consumed alternately with a second loader it yields {} batches instead of {}", describe(&va), oa.len(), b0.len())
+                });
+                obs.check(ob == bb_ref, "two-loaders/second-differs", || {
+                    format!("{}: consumed alternately with another loader it yields {} batches instead of {}", describe(&vb), ob.len(), bb_ref.len())
+                });
+                obs.tag("two-loaders-alive");
+            }
+            Err(e) => obs.fail("two-loaders/error", format!("{e}")),
         }
     }
     // 6. history independence: after iter(), the stream depends only on the loader's current
